@@ -306,7 +306,9 @@ func runE2E(c e2eCase) (res e2eResult) {
 	id := fmt.Sprintf("len=%d pattern=%q", c.Len, e2ePatterns[c.Pattern])
 	w := px.NewW3(c.RSA)
 	if err := w.Issuer.AddOrigin(string(name)); err != nil {
-		panic("harness: AddOrigin: " + err.Error())
+		// the name does not end in a zero byte: it is a legal origin name and must be registrable
+		res.v = &mc.Viol{Sig: "issuer refuses to register an origin name that does not end in a zero byte (" + e2ePatterns[c.Pattern] + ")", What: fmt.Sprintf("%s: %v", id, err)}
+		return
 	}
 	args := func(origin []byte, tag string) px.T3Args {
 		return px.T3Args{Secret: p384Scalar("sec-" + c.label()), Blind: p384Scalar("bl-" + c.label() + tag), Challenge: mc.Fill(seedBase, "chal-"+c.label(), 32),
@@ -425,7 +427,7 @@ func main() {
 	for n := 0; n <= mc.Pick(r, 130, 4128); n++ {
 		lens = append(lens, n)
 	}
-	lens = append(lens, mc.Pick(r, []int{1023, 1024, 1025}, []int{8191, 8192, 8193, 16384, 32767, 32768, 32769, 60000})...)
+	lens = append(lens, mc.Pick(r, []int{1023, 1024, 1025, 2047, 2048, 2049, 4096, 8192, 16384, 65000}, []int{8191, 8192, 8193, 16384, 32767, 32768, 32769, 60000, 65000})...)
 	var cases []e2eCase
 	for _, n := range lens {
 		for p := range e2ePatterns {
